@@ -698,7 +698,7 @@ fn run(ctx: &Ctx) -> i32 {
             spaces,
             cfg: PoolCfg { chunk: 1, case_timeout: std::time::Duration::from_secs(120), ..Default::default() },
             level: "exploration",
-            rule: "full product password alphabet x synthetic payload sizes through writer::xlsx::set_password (file to file; in the thorough tier: the 7 stated passwords x all extended sizes and the extra passwords x the 13 stated sizes), plus every password x {real package, real light package} through set_password and through write_with_password / write_with_password_light on the workbook itself; every case performs the save twice (for set_password the second time from a named pipe fed by another thread). Each produced file is opened by the harness's own MS-OFFCRYPTO agile reader (cfb container parser + own descriptor parsing, key derivation, verifier, segment decryption, HMAC); clauses: container, descriptor, verifier (right password), wrong-password (password+'x', empty, password minus last char), length, plaintext, integrity, fresh-within-file, fresh-between-saves; the one-case space `freshness` checks pairwise distinctness of all salts/verifier inputs/package keys/HMAC keys over the whole run. distinct_nontrivial = distinct (entry, password, declared length, hash of decrypted plaintext) observations plus distinct random values seen by `freshness`".into(),
+            rule: "full product password alphabet x synthetic payload sizes through writer::xlsx::set_password (file to file; in the thorough tier: the 7 stated passwords x all extended sizes and the extra passwords x the 13 stated sizes), plus every password x {real package, real light package} through set_password and through write_with_password / write_with_password_light on the workbook itself; every case performs the save twice (for set_password the second time from a named pipe fed by another thread). Each produced file is opened by the harness's own MS-OFFCRYPTO agile reader (cfb container parser + own descriptor parsing, key derivation, verifier, segment decryption, HMAC); clauses: container, descriptor, verifier (right password), wrong-password (password+'x', empty, password minus last char), length, plaintext, integrity, fresh-within-file, fresh-between-saves; the one-case space `freshness` checks pairwise distinctness of all salts/verifier inputs/package keys/HMAC keys over the whole run. Space `overlap`: save A (each entry point) suspended at each of the two hook points inside helper::crypt::encrypt (compound file created / completely written), save B (each entry point; another password, another package, same directory) run to completion there on the same thread, then A continues; both files are judged with every clause for their own password and package, and nothing else may be left in the directory. distinct_nontrivial = distinct (entry, password, declared length, hash of decrypted plaintext) observations plus distinct random values seen by `freshness`".into(),
             alphabets: json!({
                 "passwords": pws.iter().map(|p| if p.text.chars().count() > 40 { format!("{} chars starting {:?}", p.text.chars().count(), p.text.chars().take(10).collect::<String>()) } else { p.text.clone() }).collect::<Vec<_>>(),
                 "synthetic_sizes": szs,
